@@ -35,10 +35,11 @@ type gen struct {
 
 // The handler-state dimension of the consensus entry point: object number k < 5 of a consensus payload type is built
 // for this (round, index) relative to the handler's current (ctxRound, ctxIndex) -- current, next index, next round,
-// previous round, far future -- with a timestamp that is not in the future and valid signatures of the registered
+// previous round, far future, round 0 -- with a timestamp that is not in the future and valid signatures of the registered
 // validator, so that the envelope around it (and around each of its mutations) passes the handler's admission checks
 // and reaches the round-dependent code.
-var liveStates = [][2]uint64{{ctxRound, uint64(ctxIndex)}, {ctxRound, uint64(ctxIndex) + 1}, {ctxRound + 1, 1}, {ctxRound - 1, 1}, {ctxRound + 10000, 1}}
+var liveStates = [][2]uint64{{ctxRound, uint64(ctxIndex)}, {ctxRound, uint64(ctxIndex) + 1}, {ctxRound + 1, 1}, {ctxRound - 1, 1}, {ctxRound + 10000, 1},
+	{0, 1}} // ... and round 0, for which there is no look-back state at all
 
 // liveTypes get at least len(liveStates) seed objects.
 var liveTypes = map[string]bool{"BlockHashWithVotes": true, "ConsensusCommon": true, "Block": true, "UconMessage": true}
@@ -61,7 +62,7 @@ func newGen(seed int64, ty string, k int) *gen {
 	for i := 0; i < 8; i++ {
 		s = s<<8 | int64(h[i])
 	}
-	return &gen{r: rand.New(rand.NewSource(s)), keys: fixture.Keys("rlp", 4), k: k}
+	return &gen{r: rand.New(rand.NewSource(s)), keys: fixture.Keys("rlp", nKeys), k: k}
 }
 
 func (g *gen) n(n int) int { return g.r.Intn(n) }
